@@ -182,14 +182,29 @@ def c11_2(rep, ix, G):
                 rep.check(r == want, R, ix.site(f, st), "%s: the store `%s` is %s for a %s" % (q.split(".")[-1], " ".join(u(st).split())[:40], "reachable" if want else "not reachable", txt),
                           "store reachable: the reserved name is accepted" if r and not want else "store unreachable", key="%s|%s" % (q, which))
         tables[q] = row
-        # payload of the raises under the invalid() test
-        for n in walk_shallow(fn):
-            if isinstance(n, ast.If) and "invalid()" in u(n.test):
-                for r in [x for x in ast.walk(n) if isinstance(x, ast.Raise)]:
-                    cls, args = raise_payload(fn, r, ix, f.mod)
-                    ok = cls == "BlackbirdSyntaxError" and any(a.endswith(".line") for a in args) and any(a.endswith(".column") for a in args) and any("name().getText()" in a for a in args)
-                    rep.check(ok, R, ix.site(f, r), "%s: reserved-name error is a BlackbirdSyntaxError carrying line, column and the name" % q.split(".")[-1], "raises %s with %s" % (cls, args),
-                              key="%s|payload|%s" % (q, " ".join(u(r).split())[:50]))
+        # payload of the reserved-name raises: the raise statements that an ordinary name cannot reach and some reserved alternative can
+        def mk_atom(which):
+            def atom(node):
+                if isinstance(node, ast.Call) and isinstance(node.func, ast.Attribute) and not node.args:
+                    if node.func.attr == "invalid":
+                        return "INVALIDCTX" if which else None
+                    if node.func.attr in alts:
+                        try:
+                            base = resolved_text(fn, node.func.value, stmt_of(fn, node) or fn.body[0])
+                        except Exception:
+                            base = u(node.func.value)
+                        if base.endswith(".invalid()"):
+                            return "CHILD" if node.func.attr == which else None
+                return AEval.NO
+            return atom
+        for r in [x for x in walk_shallow(fn) if isinstance(x, ast.Raise)]:
+            reach = Reach(fn, r)
+            if reach.may_reach(mk_atom(None)) or not any(reach.may_reach(mk_atom(w)) for w in alts):
+                continue
+            cls, args = raise_payload(fn, r, ix, f.mod)
+            ok = cls == "BlackbirdSyntaxError" and any(a.endswith(".line") for a in args) and any(a.endswith(".column") for a in args) and any("name().getText()" in a for a in args)
+            rep.check(ok, R, ix.site(f, r), "%s: reserved-name error is a BlackbirdSyntaxError carrying line, column and the name" % q.split(".")[-1], "raises %s with %s" % (cls, args),
+                      key="%s|payload|%s" % (q, " ".join(u(r).split())[:50]))
     rep.check(len({tuple(sorted((str(k), v) for k, v in t.items())) for t in tables.values()}) == 1, R, "listener.BlackbirdListener", "scalar and array declaration handlers agree on the reserved-name check")
 
 
